@@ -49,6 +49,8 @@ var c11Files = map[string]string{
 	"nt7.fa": ">r1\nATGGCTAAGTGA\n>r2\nATGGCTAAG-GA\n>r3\nATGACTAAGTNA\n>r4\nATGACCAAGTGA\n>r5\nTTGACCAAGTGC\n>r6\nATCACCTAGTGA\n>r7\nATGAGCAAGAGA\n",
 	// a name holding a multi-byte UTF-8 character
 	"utf8.fa": ">s\xc3\xa9q1\nACGT\n>seq2\nAC-T\n>\xce\xb1\xce\xb2\nTTGA\n",
+	// header lines with a description after the identifier (the name is the whole line)
+	"desc.fa": ">Seq0001 Homo sapiens isolate 1\nACGT-A\n>Seq0002\tMus musculus\nAC-TTA\n",
 	"sat.fa":  ">s1\nAACA\n>s2\nAAAA\n>s3\nCCCA\n",
 	"sat2.fa": ">s1\nAAAA\n>s2\nCCCA\n>s3\nAACA\n",
 	// the ORF ATGCTTTGGTAA translates to MLW*: L is a protein-only letter, so the pairwise aligner reads it as a protein
@@ -682,6 +684,8 @@ type c11Chain struct {
 	Input  string   `json:"input"`
 	Chain  []string `json:"chain"` // formats, first = last = starting format
 	Strict bool     `json:"strict,omitempty"`
+	// Canonical: the input file is in the form goalign writes; the first conversion to FASTA must return it
+	Canonical bool `json:"canonical_input,omitempty"`
 }
 
 var c11Formats = []string{"fasta", "phylip", "nexus", "clustal"}
@@ -700,11 +704,17 @@ func c11FormatFlag(f string) []string {
 
 func c11Reformat(c *mc.Ctx, dir string, from, to string, in []byte, n *int) ([]byte, error) {
 	*n++
+	from = strings.TrimSuffix(from, "/unaligned")
 	p := filepath.Join(dir, fmt.Sprintf("step%d.%s", *n, from))
 	if err := os.WriteFile(p, in, 0o644); err != nil {
 		return nil, err
 	}
+	from = strings.TrimSuffix(from, "/unaligned")
 	args := append([]string{"reformat", to, "-i", p}, c11FormatFlag(from)...)
+	if strings.HasSuffix(to, "/unaligned") {
+		// the file is read as a set of sequences (gaps are residues then) and written as FASTA again
+		args = []string{"reformat", "fasta", "-i", p, "--unaligned"}
+	}
 	cmd := exec.Command(filepath.Join(mc.ScratchDir, "goalign-plain"), args...)
 	var so, se bytes.Buffer
 	cmd.Stdout, cmd.Stderr = &so, &se
@@ -732,6 +742,12 @@ func c11CheckChain(c *mc.Ctx, ch c11Chain) {
 	start, err := c11Reformat(c, dir, "fasta", ch.Chain[0], []byte(c11Files[ch.Input]), &n)
 	if err != nil {
 		c.Violation("C11/reformat-chain/conversion-fails", fmt.Sprintf("writing %s as %s: %v", ch.Input, ch.Chain[0], err), ch)
+		return
+	}
+	if ch.Canonical && !bytes.Equal(start, []byte(c11Files[ch.Input])) {
+		// the input is written the way goalign writes FASTA (one line per sequence here, the whole header line being
+		// the name): reformatting it to FASTA is already a round trip
+		c.Violation("C11/reformat-chain/bytes-differ", fmt.Sprintf("reformat fasta on %s (in goalign's own FASTA form) returns %q, the file holds %q", ch.Input, c11Short(string(start)), c11Short(c11Files[ch.Input])), ch)
 		return
 	}
 	cur := start
@@ -822,7 +838,7 @@ func init() {
 		ID:    "C11",
 		Level: "model_checking",
 		Rule: cliStreamRule[1:] + " " + "subprocess-mode exploration of the goalign binary instrumented from the current tree: for each of the listed command scenarios (every documented command family, 1-3 flag sets each, on small nucleotide / protein / multi-Phylip / malformed-second-alignment inputs) x seeds {1,7} (randomised commands; shuffle seqs and sample sites also 0, -2, -1234567890123, build seqboot and mutate snvs also -2: every seed but the documented -1 replays) x --threads {1,2,3,16} (threaded commands; distances of a 7-row alignment with 3, 4 and 5 threads: more rows than workers, neither the rows nor the rows less one a multiple of the workers): the default execution, then EVERY execution within 2 (quick) / 3 (thorough) deviations from it when run with one thread, 2 deviations with 2 threads and 1 deviation with 3 and 16 threads (both tiers) — a deviation is one scheduling decision other than the default (keep the running goroutine, else the lowest runnable id) at a channel/mutex/WaitGroup/spawn operation, one non-sorted iteration order at a ranged map, or one clock step at time.Now — must give exactly the bytes (stdout, exit status, every file written) of the default one-thread execution, end normally, and show no data race (vector clocks). " +
-			"Reformat chains: ALL format sequences of <=3 conversions among fasta/phylip/nexus/clustal that return to the starting format, on 8 inputs (one whose names hold multi-byte UTF-8 characters, one that fits no alphabet as a whole, one with '?', '*' and lower case, one whose names are NEXUS keywords but for their case), must return the starting bytes; build distboot == build seqboot + compute distance for 9 models (6 nucleotide, 3 protein on a gapped protein alignment) x {no flag, -r, --alpha 0.7, both} x 2 seeds, and x partial bootstrap -f 0.5, 0.25. Free-running complement: goalign built with the race detector runs every threaded scenario with 4 threads (reports of the detector are violations). Each scenario also runs on the uninstrumented binary and on the instrumented binary in pass-through mode (must agree), and a second time in the directory that holds the output files of a first run (must give what a run in an empty directory gives). states/transitions = nodes/edges of the choice trees; distinct_nontrivial = distinct (scenario, seed, threads, choice list) executions compared.",
+			"Reformat chains: ALL format sequences of <=3 conversions among fasta/phylip/nexus/clustal that return to the starting format, on 8 inputs (one whose names hold multi-byte UTF-8 characters, one that fits no alphabet as a whole, one with '?', '*' and lower case, one whose names are NEXUS keywords but for their case), must return the starting bytes (FASTA also read with --unaligned and written again, and with header lines that hold a description); build distboot == build seqboot + compute distance for 9 models (6 nucleotide, 3 protein on a gapped protein alignment) x {no flag, -r, --alpha 0.7, both} x 2 seeds, and x partial bootstrap -f 0.5, 0.25. Free-running complement: goalign built with the race detector runs every threaded scenario with 4 threads (reports of the detector are violations). Each scenario also runs on the uninstrumented binary and on the instrumented binary in pass-through mode (must agree), and a second time in the directory that holds the output files of a first run (must give what a run in an empty directory gives). states/transitions = nodes/edges of the choice trees; distinct_nontrivial = distinct (scenario, seed, threads, choice list) executions compared.",
 		Assumptions: []string{
 			"scheduling points only at synchronisation operations (channel, mutex, WaitGroup, go); data races are reported separately by vector clocks",
 			"stderr is not compared (log lines); dependencies (cobra, gzip, xz, tar) are not instrumented: they spawn no goroutines and range over no maps on these paths",
@@ -893,6 +909,14 @@ func init() {
 						}
 					}})
 				}
+			}
+			// FASTA read as a set of sequences (--unaligned) and written again; names holding blanks (FASTA only)
+			for _, in := range []string{"nt.fa", "tie.fa", "odd.fa", "desc.fa"} {
+				in := in
+				ts = append(ts, mc.Task{Name: "chain-unaligned#" + in, Run: func(c *mc.Ctx) {
+					c11CheckChain(c, c11Chain{Input: in, Chain: []string{"fasta", "fasta"}, Canonical: true})
+					c11CheckChain(c, c11Chain{Input: in, Chain: []string{"fasta", "fasta/unaligned", "fasta"}, Canonical: true})
+				}})
 			}
 			for _, m := range []string{"pdist", "jc", "k2p", "f81", "f84", "tn93", "lg", "jtt", "wag"} {
 				in := "nt.fa"
